@@ -96,7 +96,7 @@ class C21(PropBase):
             # finding-free project: the internal error is then the only thing that can produce the error exit status
             proj = gen.gen_project(rng, n_units=rng.randint(2, 4), atoms="none", headers=False, wp=False, cfg_blocks=0, inline=0)
         else:
-            proj = gen.gen_project(rng, n_units=rng.randint(2, 6), inline=0.2, big=0.08, max_atoms=3, wp=rng.chance(0.3))
+            proj = gen.gen_project(rng, corpus=0.2, n_units=rng.randint(2, 6), inline=0.2, big=0.08, max_atoms=3, wp=rng.chance(0.3))
         opts = {"--enable": rng.choice(["--enable=style,warning,performance,portability", "--enable=style", "--enable=warning", "--enable=style,information"])}
         if rng.chance(0.5):
             opts["--inline-suppr"] = "--inline-suppr"
@@ -152,6 +152,27 @@ class C21(PropBase):
             out.error = "twin trace shows %d workers for %d units" % (len(tm), len(units))
             return out
         twin_keys = set(finding_key(f) for f in twin.findings)
+
+        def payload_keys(msgs):
+            # every completely delivered message that parses as a serialised finding (whatever its type byte is)
+            ks = set()
+            for w, ml in msgs.items():
+                for t, ln, payload in ml:
+                    try:
+                        k = parse_payload(payload)
+                    except (ValueError, IndexError):
+                        continue
+                    if strip and k[3][0].startswith(strip.rstrip("/") + "/"):
+                        k = k[:3] + ((k[3][0][len(strip.rstrip("/")) + 1:],) + k[3][1:],)
+                    ks.add(k)
+            return ks
+        # the prediction oracle rests on reading the transport: it must explain the fault-free run completely, else the
+        # machinery does not understand the protocol (any more) and says so instead of judging
+        unexplained = [k for k in (finding_key(f) for f in twin.findings if not_meta(f) and f.id not in ("cppcheckError", "unmatchedSuppression", "internalError") and f.id not in core.WHOLE_PROGRAM_IDS)
+                       if k not in payload_keys(tm)]
+        if unexplained:
+            out.error = "the transport trace of the fault-free run does not explain its findings (protocol changed?): %s" % (unexplained[:2],)
+            return out
         bounds = self._boundaries(tm)
         rng = Rng(scn["fseed"])
         plans = []
@@ -222,18 +243,7 @@ class C21(PropBase):
             if bad:
                 out.violate("transport-differs", "survivor stream differs when worker dies %s" % tag, [desc, bad], ids=tag)
                 continue
-            delivered = set()
-            for w, ml in fm.items():
-                for t, ln, payload in ml:
-                    if t == "2":
-                        try:
-                            k = parse_payload(payload)
-                            if strip and k[3][0].startswith(strip.rstrip("/") + "/"):
-                                k = k[:3] + ((k[3][0][len(strip.rstrip("/")) + 1:],) + k[3][1:],)
-                            delivered.add(k)
-                        except (ValueError, IndexError):
-                            out.error = "cannot parse a REPORT_ERROR payload from the trace"
-                            return out
+            delivered = payload_keys(fm)
             expected = set(k for k in delivered if k in twin_keys)
             got = set(finding_key(f) for f in r.findings if not_meta(f) and f.id not in ("cppcheckError", "unmatchedSuppression") and f.id not in core.WHOLE_PROGRAM_IDS)
             exp2 = set(k for k in expected if k[0] not in core.WHOLE_PROGRAM_IDS and k[0] != "unmatchedSuppression")
